@@ -2,13 +2,22 @@
 package par
 
 import (
+	"os"
 	"runtime"
+	"strconv"
 	"sync"
 	"sync/atomic"
 )
 
 // Workers is the number of goroutines used.
-var Workers = runtime.NumCPU()
+var Workers = func() int {
+	if s := os.Getenv("VERIF_WORKERS"); s != "" {
+		if n, err := strconv.Atoi(s); err == nil && n > 0 {
+			return n
+		}
+	}
+	return runtime.NumCPU()
+}()
 
 // For calls f(i) for every i in [0,n), in chunks, on Workers goroutines.
 func For(n int, f func(i int)) { ForW(n, func(_, i int) { f(i) }) }
